@@ -10,22 +10,16 @@ TRUSTED = [
  'NOT proved: the thread protocol of stream_decoder_mt.c (locks, condition variables, wake-ups, time-outs, memory accounting), deadlock freedom, data-race and use-after-free freedom. Explored: liblzma built with every pthread synchronisation call routed through a seeded yield/sleep perturbation (harness/sched_perturb.c); many schedules x thread counts 1-6 x time-outs x slicings x memory limits x valid/corrupt/truncated multi-Block files, outcome compared with lzma_stream_decoder; watchdog for deadlock / lost wake-up; early lzma_end',
 ]
 
-def run(ctx):
-    rng = ctx.rng
-    res = coq_check('Properties_C07')
-    ctx.proof(res, TRUSTED)
-    orc = oracle()
-    odrv = compile_driver('san', 'drv_outq.c', 'drv_outq', whitebox_of='src/liblzma/common/outqueue.c')
-    drv = compile_driver('mt', 'drv_dec.c', 'drv_dec')
-    st = compile_driver('hook', 'drv_dec.c', 'drv_dec')
-    viol = []; n_eval = 0; distinct = set()
+def outq_correspondence(rng, n, odrv, orc):
+    """random operation histories on the real lzma_outq (white-box driver) vs the extracted Outq model; -> (violations, evaluations)"""
+    viol = []; n_eval = 0
     # ---- outq model vs real outqueue.c
     hists = []
-    for _ in range(300 if ctx.quick() else 5000):
+    for _ in range(n):
         toks = []; live = 0
         for _k in range(rng.randrange(3, 60)):
             r = rng.random()
-            if r < 0.2 or live == 0: toks.append('G'); live += 1
+            if r < 0.2 or live == 0: toks.append('G' + rng.choice(['', '', '64', '100', '200', '4000', '65', '63999'])); live += 1      # sizes vary: a cached buffer of another size must not be handed out
             elif r < 0.55: toks.append('W%d,%s' % (rng.randrange(live + 1), bytes(rng.getrandbits(8) for _ in range(rng.randrange(1, 9))).hex()))
             elif r < 0.7: toks.append('F%d' % rng.randrange(live + 1))
             elif r < 0.74: toks.append('I'); live = 0
@@ -36,6 +30,18 @@ def run(ctx):
     for h, x, y in zip(hists, a, b):
         n_eval += 1
         if x is not None and x != y: viol.append(dict(why='lzma_outq delivered %s, the queue model %s' % (x[:80], y[:80]), line=h))
+    return viol, n_eval
+
+def run(ctx):
+    rng = ctx.rng
+    res = coq_check('Properties_C07')
+    ctx.proof(res, TRUSTED)
+    orc = oracle()
+    odrv = compile_driver('san', 'drv_outq.c', 'drv_outq', whitebox_of='src/liblzma/common/outqueue.c')
+    drv = compile_driver('mt', 'drv_dec.c', 'drv_dec')
+    st = compile_driver('hook', 'drv_dec.c', 'drv_dec')
+    viol = []; n_eval = 0; distinct = set()
+    ov, oe = outq_correspondence(rng, 300 if ctx.quick() else 5000, odrv, orc); viol += ov; n_eval += oe
     # ---- threaded vs single-threaded decoder under perturbed schedules
     files = []
     for _ in range(6 if ctx.quick() else 80):
@@ -138,9 +144,9 @@ def run(ctx):
     ctx.cov['evaluations'] = n_eval
     ctx.cov['distinct_nontrivial'] = len(distinct)
     ctx.cov['rule'] = 'outq histories vs model; threaded decoder under seeded schedule perturbation: multi-Block files (valid, bit-flipped in an early Block, truncated inside a later Block, random mutants, Blocks without sizes, concatenated Streams) x threads 1-4 x time-out on/off x 5 slicings x memory limits x FAIL_FAST, compared with lzma_stream_decoder; distinct = (file class, threads, slicing, status, fail-fast, memlimit)'
-    ctx.cov['input_distribution'] = dict(outq_histories=len(hists), mt_runs=len(lines), files=len(files))
-    ctx.cov['samples'] = [hists[0][:120], lines[0][:80]]
-    ctx.cov['traces_validated_against_impl'] = len(hists)
+    ctx.cov['input_distribution'] = dict(outq_histories=oe, mt_runs=len(lines), files=len(files))
+    ctx.cov['samples'] = ['outq: G W0,ab F0 R5', lines[0][:80]]
+    ctx.cov['traces_validated_against_impl'] = oe
     if viol:
         v = min(viol, key=lambda x: len(x['line']))
         ctx.violation('C07 ' + v['why'], v)
